@@ -1,7 +1,7 @@
 """C11 — evolution strategies: theorems (Props/C11.lean) about strategy-parameter formulas regenerated from the C++
 (translate/cma_params.py -> Gen/CMAParams.lean) and about the models Model/CMA.lean, Model/ES.lean; correspondence K-C11 between
 the models (driver drv_c11) and the real CMA, ElitistCMA, CMSA, CrossEntropyMethod, SimplexDownhill; independent per-step oracle
-on CMA, CMSA, ElitistCMA, VD-CMA, CrossEntropyMethod and SimplexDownhill (8 runs per case incl. a re-initialised used object and an
+on CMA, CMSA, ElitistCMA, VD-CMA, CrossEntropyMethod and SimplexDownhill (9 runs per case incl. a re-initialised used object and an
 object used on another problem before), over the cross product of the configuration axes of every class' public interface (global / private
 generator, every init overload, setters before / after init / in the middle of a run)."""
 import os, re, struct, subprocess, time
@@ -28,7 +28,7 @@ MANIFEST = dict(
         "(4) ElitistCMA::step with CMAChromosome::updateAsOffspring/updateAsParent: ecma_sigma_pos, ecma_pSucc_unit, ecma_elitist_monotone (real three-way success rule with the history of accepted values: the reported value never increases "
         "and the point changes only with it), active_update_admissible (the shortened unlearning rate keeps (1+r)-r|z|^2>0 for every z), ecma_factor_valid. "
         "(5) remora's Cholesky rank-one update (CMSA, ElitistCMA): cholUpdate_diag_pos / cholUpdate_valid (whenever the update returns, the factor has a positive diagonal again, for every alpha>0, any beta, any v), cmsa_factor_valid, cmsa_sigma_pos. "
-        "(6) cem_variance_nonneg; SimplexDownhill: simplex_best_monotone(_run), simplex_value_is_f. "
+        "(6) cem_variance_nonneg; SimplexDownhill: simplex_best_monotone(_run), simplex_value_is_f, simplexInit_honest + simplex_value_is_f_run (value consistency of whole runs from init, every objective; init as repaired for F16, the pinned init is simplexInitMagic with an agreement theorem and a witness of its failure). "
         "(7) Configuration axes, universally quantified: ecmaInit_invariant + ecma_elitist_monotone_run / _prefix (whole ElitistCMA runs from init, any number of steps, BOTH settings of activeUpdate(): the reported value never gets worse), "
         "ecma_accepted_monotone (with penalties, i.e. a feasibility box: the accepted penalized fitness never increases), clamp_pos_any / sigma_pos_any_bound (sigma_pos for EVERY CMA::setLowerBound value, zero and negative included), "
         "cemNoise_nonneg / cem_variance_nonneg_any_noise (every CrossEntropyMethod::setNoiseType configuration, every generation). "
@@ -37,15 +37,15 @@ MANIFEST = dict(
         "whole SimplexDownhill runs are re-computed from the starting point (objective evaluated in Lean) and compared bit for bit. "
         "Independent oracle on the real CMA (all recombination types, user-set lambda from 2 to 200 incl. lambda >> n), CMSA, ElitistCMA, VD-CMA, CrossEntropyMethod (user-set population / selection / variance), SimplexDownhill, n from 1 to 60, after init and after every step: "
         "sigma>0 finite; covariance symmetric + own Cholesky (CMA) / valid Cholesky factor (CMSA, ElitistCMA) / D finite non-zero, v finite, |v|>0 (VD-CMA) / variance finite >=0 (CEM); mean and paths finite; weights positive, non-increasing, sum 1; learning rates in range; "
-        "value = f(closest feasible point) bit-exact; 8 runs per case with the same seed: fresh, fresh, RE-INITIALISED used object, an object first USED ON ANOTHER PROBLEM (other dimension, smaller or larger, other start and seed, per-run state overwritten through the after-init setters) and then initialised, "
-        "and f rescaled by 2, 1/8 and a piecewise-linear exact map (identical points and step sizes); elitist variants monotone (ElitistCMA: reported value without a box; penalized fitness of every newly accepted parent, read from the individual, with and without a box); best <= every simplex vertex; sphere convergence for all six methods "
+        "value = f(closest feasible point) bit-exact; 9 runs per case with the same seed: fresh, fresh, RE-INITIALISED used object, an object first USED ON ANOTHER PROBLEM (other dimension, smaller or larger, other start and seed, per-run state overwritten through the after-init setters) and then initialised, "
+        "and f rescaled by 2, 1/8, a piecewise-linear exact map and by 2^340 (objective values beyond 1e100; identical points and step sizes); a share of the cases runs on the objective scaled by 2^340 from the start; elitist variants monotone (ElitistCMA: reported value without a box; penalized fitness of every newly accepted parent, read from the individual, with and without a box); best <= every simplex vertex; sphere convergence for all six methods "
         "(generator kind, init overload, activeUpdate and recombination type drawn at random). "
         "CONFIGURATION SWEEP (oracle on the real code, labelled as such; every run, both tiers): the cross product of the configuration axes of each class' public interface, each cell a run case with all oracles above (~460 cells in the quick tier, x4 in the thorough tier): "
         "CMA {global | private generator} x {init(f,p) | init(f) with proposed start | init(f,points) | init(f,p,lambda,mu,sigma[,C0 none/diagonal/dense])} x {no setter | setLambda+setMu | setLambda only | setMu only} x 3 recombination types x {default | setLowerBound(positive, 0, negative)}; "
         "CMSA the same generator / init / setter axes x setInitialSigma; ElitistCMA generator x 3 short inits x activeUpdate {untouched, false, true} x sigma() x {no box | feasibility box with default / custom constrainedPenaltyFactor()}; "
         "VD-CMA generator x 4 inits x {default | setInitialSigma | setSigma after init} x lambda() changed after init; CrossEntropyMethod 4 inits x {default | setVariance(double) | variance vector} x {no | ConstantNoise | LinearNoise} x population/selection size changed after init; SimplexDownhill 3 inits; "
         "setters called in the MIDDLE of a run (activeUpdate toggled, sigma(), setLowerBound, setSigma, lambda(), setVariance, population sizes). "
-        "Determinism with a private generator is tested with random::globalRng in a DIFFERENT state in each of the 8 runs (a draw from the wrong generator changes the run), with the global generator it is seeded identically. "
+        "Determinism with a private generator is tested with random::globalRng in a DIFFERENT state in each of the 9 runs (a draw from the wrong generator changes the run), with the global generator it is seeded identically. "
         "The model traces cover the same axes where they change the update: activeUpdate on/off and a feasibility box (Ecma model), lower bound (carried in the trace header) and initial covariance (CMA model), initial covariance (CMSA), noise type / variance vector / resized population (CEM; cemNoise in Model/ES.lean), every init overload (simplex); "
         "the strategy constants are compared with the regenerated formulas under every construction mode / init overload / setter combination."),
   note=TRUST + "not modelled (inputs of the models): the random variates and the eigendecomposition of MultiVariateNormalDistribution::update; VD-CMA's updateStrategyParameters has no Lean model (constants regenerated and compared, update covered by the oracle only; "
@@ -53,13 +53,14 @@ MANIFEST = dict(
        "cholUpdate_diag_pos proves validity of the returned factor, not that L'L'^T equals alpha*LL^T+beta*vv^T; simplex rank invariance and CEM/simplex convergence are oracle-only; the noise-handling branch of CMA::step (function.isNoisy()) is outside the property (deterministic objective); "
        "ElitistSelection uses std::sort (unstable beyond 16 elements): generations with tied fitness among more than 16 offspring are counted, not compared; convergence on the sphere is numerical (value <= 1e-10 within the budget; CEM: 1e-6 and dimension 1 only, because the noise-free cross-entropy method with 10 of 100 parents converges prematurely in higher dimension: n=5, seed 862289 stalls at 3.6e-3; n=2, seed 680299 from (3, 2.5) stalls at 1.1e-2, about 1 run in 400). "
        "That a run with a private generator does not depend on random::globalRng, and the equivalence of per-run state after init of a used object, have no model-level content (the models take the variates as inputs) and are decided by the oracle on the real code only. "
-       "Known findings on the unchanged tree (known_findings.json, findings_proposed/C11.md): F14 VD-CMA learning rates negative for n<5 and zero for n=5 (patch C11-F14-vdcma-correction-floor.patch, validated) and its consequence F12 (VD-CMA turns NaN after stagnating), "
+       "Known findings on the unchanged tree (known_findings.json, findings_proposed/C11.md): F16 SimplexDownhill::init starts from the magic best value 1e100, so on objectives with values beyond 1e100 (the 2^340 rescaling) the reported pair is stale until a value below 1e100 is seen "
+       "(patch C11-F16-simplex-init-best.patch, validated; Model/ES.lean simplexInit is the repaired init -- simplexInit_honest, simplex_value_is_f_run hold without hypothesis -- and simplexInitMagic the pinned one, with simplexInitMagic_eq_of_small and the witness simplexInitMagic_not_honest_witness); F14 VD-CMA learning rates negative for n<5 and zero for n=5 (patch C11-F14-vdcma-correction-floor.patch, validated) and its consequence F12 (VD-CMA turns NaN after stagnating), "
        "F13 the CMA covariance matrix drifts away from symmetry (oracle tolerance 1e-9*sqrt(CiiCjj)+1e-16), F15 CMA with a feasibility box whose optimum lies on the boundary and a large population loses positive definiteness of C and the eigensolver throws (thorough tier; corpus f15). CMA traces do not start at |x0| ~ 1e6 (cancellation in x - mean exceeds the 1e-9 tolerance of the C comparison; such starts are kept in the run cases). Observations (not violations of C11 as stated): CMA/CMSA rank offspring by unpenalizedFitness, so the PenalizingEvaluator penalty never influences selection; LMCMA.h does not compile and LMCMA::step always throws; CMAChromosome::roundUpdate deviates from the paper by a factor c_cov.",
   technique="Lean 4 proofs (induction over generations and over the columns of the Cholesky factor, stable-sort congruence, Mathlib PosSemidef) about regenerated formulas and hand-written models + differential correspondence and property oracle on the C++ (ASan/UBSan)",
   design="§6 C11, §14")
 FINISH = dict(level="proof",
               rule="coefficient cases: (class, n, lambda, mu, recombination) incl. the defaults; run cases: objective (sphere | integer strictly convex quadratic | Rosenbrock | plateau | constant, optional soft box) x optimizer x population class x initial step size x x0 class x seed x steps, "
-                   "each executed 8 times inside the harness (2x fresh, re-initialised used object, object used on another problem before, 3 rescalings); configuration cells: the cross product of the construction / init / setter axes of each class (gen_axis_cases), one run case per cell; trace cases: CMA / ElitistCMA / CMSA / CEM steps re-computed by the models, whole simplex runs; non-trivial = at least 5 steps")
+                   "each executed 9 times inside the harness (2x fresh, re-initialised used object, object used on another problem before, 4 rescalings); configuration cells: the cross product of the construction / init / setter axes of each class (gen_axis_cases), one run case per cell; trace cases: CMA / ElitistCMA / CMSA / CEM steps re-computed by the models, whole simplex runs; non-trivial = at least 5 steps")
 
 
 def fb(x):
@@ -71,6 +72,7 @@ def nums(xs):
 
 
 INF = float("inf")
+HUGE_SCALE = 2.0 ** 340        # objective values beyond 1e100 (exact, order preserving)
 SOFTBOX_OK = ("cma", "cmsa")      # rank by the unpenalized fitness; see gen_opt
 
 
@@ -170,6 +172,8 @@ def axis_objective(r, boxes):
     x0, xc = gen_x0(r, n, box)
     while xc in ("huge",):
         x0, xc = gen_x0(r, n, box)
+    if r.chance(1, 8):
+        ops.append("scale " + fb(HUGE_SCALE))
     return ops, n, box, x0
 
 
@@ -177,7 +181,7 @@ def gen_axis_cases(r, maxsteps):
     """the cross product of the configuration axes of every strategy's public interface (construction with the global or a
     private generator x every init overload x which population setters are used x recombination type x options that act after
     init ...); objective, start, seed, sizes and number of steps are drawn at random for each cell.  Every cell is a `run`
-    case, i.e. it gets all oracles (8 runs)."""
+    case, i.e. it gets all oracles (9 runs)."""
     out = []
     def add(objops, oline, x0, steps, cell):
         out.append((objops + [oline, "run %d %d %s %s" % (r.range(1, 10 ** 6), steps, fb(INF), nums(x0))], cell))
@@ -278,6 +282,8 @@ def gen_axis_cases(r, maxsteps):
 
 def gen_run_case(r, maxsteps):
     ops, n, kind, box = gen_objective(r)
+    if r.chance(1, 10):
+        ops.append("scale " + fb(HUGE_SCALE))
     okind, oline, pc = gen_opt(r, n, box is not None)
     ops.append(oline)
     x0, xc = gen_x0(r, n, box)
@@ -485,11 +491,12 @@ def gen_coeff_axis_cases(r):
 
 
 def case_info(ops):
-    info = {"opt": "?", "obj": "?", "n": 0, "box": False, "kind": "coeffs", "steps": 0, "lambda": 0, "options": {}}
+    info = {"opt": "?", "obj": "?", "n": 0, "box": False, "kind": "coeffs", "steps": 0, "lambda": 0, "options": {}, "scale": 1.0}
     for o in ops:
         t = o.split()
         if t[0] == "obj": info["obj"], info["n"] = t[1], int(t[2])
         elif t[0] in ("box", "softbox"): info["box"] = True
+        elif t[0] == "scale": info["scale"] = struct.unpack("<d", struct.pack("<Q", int(t[1][1:], 16)))[0]
         elif t[0] == "opt":
             info["opt"] = t[1]
             info["options"] = dict(x.split("=", 1) for x in t[2:] if "=" in x)
@@ -577,6 +584,19 @@ def classify(ops, res):
     if info["opt"] == "cma" and info["box"] and info["kind"] == "run" and tags and set(tags) <= {"covariance-not-positive-definite", "exception"} \
             and (not res.oracle or "exception" not in tags or "eigendecomposition" in res.oracle[0]):
         return ("F15:cma-softbox-covariance-degenerates", f"CMA with a feasibility box (optimum on the boundary): covariance loses positive definiteness / eigensolver fails; ops {ops}")
+    if info["opt"] == "simplex" and info["kind"] == "run" and tags:
+        # F16: init starts from the magic best value 1e100.  Unscaled objective: only the run on 2^340 f is affected (empty reported
+        # point in that run, different reported points); objective scaled beyond 1e100: the reported pair is stale in every run
+        txt = " ".join(res.oracle)
+        if info["scale"] < 1e90:
+            f16 = set(tags) <= {"reported-point-has-wrong-dimension", "not-rank-invariant-at-huge-values"} and "not-rank-invariant-at-huge-values" in tags \
+                and len(re.findall(r"reported-point-has-wrong-dimension", txt)) == len(re.findall(r"reported-point-has-wrong-dimension run=rescaled4", txt))
+        else:
+            f16 = set(tags) <= {"reported-point-has-wrong-dimension", "value-not-f-of-closest-feasible-point", "reused-object-different-run",
+                                "reinitialised-object-different-run", "not-rank-invariant"} and \
+                ("reported-point-has-wrong-dimension" in tags or "value-not-f-of-closest-feasible-point" in tags)
+        if f16:
+            return ("F16:simplex-init-magic-best-value", f"SimplexDownhill::init keeps m_best at (stale point, 1e100) when every vertex value is >= 1e100 ({res.oracle[0][-200:]}); ops {ops}")
     if info["opt"] == "cma" and "covariance-not-symmetric" in tags:
         return ("F13:cma-covariance-asymmetry", f"CMA covariance matrix is not symmetric beyond rounding ({res.oracle[0][-150:]}); ops {ops}")
     if tags:
@@ -702,7 +722,7 @@ def run(ctx):
         if i["lambda"]:
             ctx.hist("lambda_over_n", "default" if not i["lambda"] else min(i["lambda"] // max(i["n"], 1), 64) // 4 * 4)
         if i["kind"] != "coeffs":
-            ctx.hist("objective", i["obj"] + ("+box" if i["box"] else ""))
+            ctx.hist("objective", i["obj"] + ("+box" if i["box"] else "") + ("*2^340" if i["scale"] > 1 else ""))
             ctx.hist("steps", min(i["steps"] // 20 * 20, 400))
             for o in c:
                 ot = [x for x in o.split() if "=" not in x]
@@ -710,7 +730,7 @@ def run(ctx):
                     ctx.hist("initial_sigma", struct.unpack("<d", struct.pack("<Q", int(ot[5][1:], 16)))[0])
                     ctx.hist("recombination", int(struct.unpack("<d", struct.pack("<Q", int(ot[4][1:], 16)))[0]))
     ctx.cov["evaluations"] = len(cases)
-    ctx.cov["runs_per_run_case"] = ("8 (fresh, fresh, re-initialised used object, object used on another problem before, 3 exact rescalings; same seed; "
+    ctx.cov["runs_per_run_case"] = ("9 (fresh, fresh, re-initialised used object, object used on another problem before, 3 exact rescalings + scaling by 2^340; same seed; "
                                     "with rng=private the process-global generator is in a different state in every run)")
     ctx.cov["distinct_nontrivial"] = len({"\n".join(c) for c in cases if case_info(c)["kind"] == "coeffs" or case_info(c)["steps"] >= 5})
     ctx.sample({"ops": cases[len(cases) // 2][:4]})
